@@ -29,3 +29,19 @@ META["C08"] = dict(
     level_text="Exploration: library bytes are compared byte-for-byte with harness/refcodec for every generated program (effective write order tracked through Copy/Merge), reference-encoded bytes are read back through the library, the same program is re-run under five writer/buffer histories and must give identical bytes, and 1558 golden (tree, bytes) pairs frozen at the pinned commit plus 32 hand-derived literals pin the layout against an error shared by library and reference.",
     level_note="The reference codec is the trusted statement of the format (pinned by literals + golden corpus). Pool behaviour under concurrency is C18's subject, not this check's.",
 )
+
+META["C02"] = dict(
+    engine="codec",
+    design_ref="DESIGN.md 3/C02",
+    technique="fuzzing/property-based testing: exhaustive short inputs, structure-aware mutation of valid encodings (every structural byte), hand-built lying tables, all evaluated through a total accessor walker at two guard-page placements; oracle = no panic/fault, 0<=n<=len, views inside input",
+    level_text="Exploration with exhaustive sub-spaces: every byte string of length <=2 (and 3 restricted in quick / all 2^24 in thorough) and ~8e5 structure-aware mutants per quick run go through ~60 public read entry points plus a bounded walker over every accessor of whatever they return. Inputs sit against PROT_NONE pages with SetPanicOnFault so a stray unsafe read becomes a recorded failure. The oracle states exactly the property: returns normally, size within the input when no error, returned data inside the input.",
+    level_note="Time/complexity of parsing hostile input is not asserted. Generated struct decoders are covered when the lang engine's kitchen-sink package is available. Sampling beyond the enumerated lengths.",
+)
+
+META["C13"] = dict(
+    engine="codec",
+    design_ref="DESIGN.md 3/C13",
+    technique="property-based testing: agreement relations between ParseValue / DecodeTypeSize / OpenValue(+Err) / re-parse, and a metamorphic prefix relation (decode(p||v) == decode(v) for 24 decoders) over accepted inputs obtained by structure-aware mutation and exhaustive short strings",
+    level_text="Exploration with an exhaustive sub-space (all strings of <=2 bytes and marker-alphabet strings of 3-4 bytes): every input the recursive parser accepts must get the same type and size from the probe and the opener, be a fixed point of re-parsing, have every visited field/element re-readable without error, and decode identically under 18 adversarial prefixes (varint-continuation lookalikes) plus a drawn prefix.",
+    level_note="Only accepted inputs are in the domain (acceptance rate of mutants is reported: ~70%). Struct members are not visited by the parser and are not asserted.",
+)
